@@ -151,7 +151,10 @@ func (t *tparser) list(end byte, endLen int) []TVal {
 func parseTLA(s string) TVal { p := &tparser{s: s}; return p.val() }
 
 // readDump calls f for every state of a TLC dump file.
-func readDump(path string, f func(map[string]TVal)) error {
+func readDump(path string, f func(map[string]TVal)) error { return readDumpVars(path, nil, f) }
+
+// readDumpVars is readDump restricted to the named variables (nil = all).
+func readDumpVars(path string, only map[string]bool, f func(map[string]TVal)) error {
 	fh, err := os.Open(path)
 	if err != nil {
 		return err
@@ -167,7 +170,9 @@ func readDump(path string, f func(map[string]TVal)) error {
 		}
 		st := map[string]TVal{}
 		for k, v := range cur {
-			st[k] = parseTLA(v)
+			if only == nil || only[k] {
+				st[k] = parseTLA(v)
+			}
 		}
 		f(st)
 		cur = map[string]string{}
